@@ -2,6 +2,8 @@ package props
 
 import (
 	"fmt"
+	"runtime"
+	"time"
 
 	"pipelined.dev/signal"
 	"verifharness/core"
@@ -206,6 +208,86 @@ func runC13(c *core.Ctx) {
 		}
 		c.Obs("pairs_checked_under_growth", 1)
 	}
+	// allocations after earlier buffers were dropped and collected: storage
+	// that comes back through the garbage collector (finalizers, free lists)
+	// must be zero over the whole capacity and must not be shared with views
+	// that are still alive
+	for g := 0; g < c.Pick(12, 150); g++ {
+		t := dyn.Types[r.Intn(len(dyn.Types))]
+		al := signal.Allocator{Channels: r.Range(1, 4), Capacity: r.Range(2, 24)}
+		al.Length = r.Range(0, al.Capacity-1)
+		caseID := fmt.Sprintf("aftergc/%s/%d", t.Name, g)
+		if !c.Want(caseID) {
+			continue
+		}
+		inst := "Alloc[" + t.Name + "]"
+		d := map[string]any{"type": t.Name, "allocator": []int{al.Channels, al.Length, al.Capacity},
+			"scenario": "buffers written over their whole capacity through Slice(0,K) are dropped; views of other dropped buffers stay alive; GC x2; new allocations of the same shape"}
+		func() { // dropped completely
+			for i := 0; i < 24; i++ {
+				b := t.Alloc(al)
+				full := b.Slice(0, al.Capacity)
+				for j := 0; j < full.Len(); j++ {
+					full.SetSample(j, mon.Canary(t.TypeInfo, j, g+i))
+				}
+			}
+		}()
+		var liveViews []dyn.Buf // the parent header is dropped, a view of its storage stays
+		for i := 0; i < 8; i++ {
+			v := t.Alloc(al).Slice(0, al.Capacity)
+			for j := 0; j < v.Len(); j++ {
+				v.SetSample(j, mon.Canary(t.TypeInfo, j, 900+i))
+			}
+			liveViews = append(liveViews, v)
+		}
+		for i := 0; i < 3; i++ {
+			runtime.GC()
+			runtime.Gosched()
+			time.Sleep(time.Millisecond) // finalizers run on their own goroutine
+		}
+		c.Eval(1)
+		c.Distinct(core.NewHash().Str("aftergc").Str(t.Name).Int(al.Channels).Int(al.Length).Int(al.Capacity).Sum())
+		var fresh []dyn.Buf
+		for i := 0; i < 40; i++ {
+			nb := t.Alloc(al)
+			fresh = append(fresh, nb)
+			bad := nb.RawLen() != al.Channels*al.Length || nb.RawCap() != al.Channels*al.Capacity
+			for j := 0; !bad && j < nb.RawCap(); j++ {
+				if !nb.RawAt(j).IsZero() {
+					c.Violate(inst+"|dirty-after-gc", caseID, fmt.Sprintf("allocation #%d after a garbage collection holds %v at position %d (length %d, capacity %d)", i, nb.RawAt(j), j, nb.RawLen(), nb.RawCap()), d)
+					bad = true
+				}
+			}
+			lo, hi := nb.RawBase(), nb.RawBase()+uintptr(nb.RawCap()*t.SizeOf)
+			for vi, v := range liveViews {
+				vlo, vhi := v.RawBase(), v.RawBase()+uintptr(v.RawCap()*t.SizeOf)
+				if lo < vhi && vlo < hi {
+					c.Violate(inst+"|shares-live-view", caseID, fmt.Sprintf("allocation #%d after a garbage collection overlaps the storage of live view %d", i, vi), d)
+				}
+			}
+			if bad {
+				break
+			}
+		}
+		// write the new ones, then the live views must still hold their stamps
+		for i, nb := range fresh {
+			full := nb.Slice(0, al.Capacity)
+			for j := 0; j < full.Len(); j++ {
+				full.SetSample(j, mon.Canary(t.TypeInfo, j, 5000+i))
+			}
+		}
+		for vi, v := range liveViews {
+			for j := 0; j < v.Len(); j++ {
+				if want := mon.Canary(t.TypeInfo, j, 900+vi); !dyn.NumEq(v.Sample(j), want) {
+					c.Violate(inst+"|crosstalk-after-gc", caseID, fmt.Sprintf("live view %d lost its stamp at position %d after new allocations were written", vi, j), d)
+					break
+				}
+			}
+		}
+		c.Obs("allocation_rounds_after_forced_gc", 1)
+		runtime.KeepAlive(liveViews)
+	}
+	c.Floor("allocation_rounds_after_forced_gc", 10)
 	c.Floor("zero_capacity_pairs_checked_under_growth", 20)
 	c.Floor("named_type_allocs", 13)
 	c.Floor("interval_pairs_checked", 100)
